@@ -45,6 +45,7 @@ class World:
         self.now_ns = 1_700_000_000_000_000_000
         self.local_clocks = local_clocks
         self.tick_ns = 100_000_000
+        self.sub_rcvhwm = 0
         self.pub_hwm = pub_hwm          # override of PUB SNDHWM (messages per subscriber pipe), None = socket option
         self.bound = {}                 # normalised addr -> Socket (latest)
         self.links = []
@@ -427,6 +428,9 @@ class Socket:
                 if not any(parts[0].startswith(s) for s in l.dst.subs):
                     continue
                 hwm = w.pub_hwm if w.pub_hwm is not None else self.opts.get(SNDHWM, 1000)
+                # what is queued towards one subscriber is bounded by the publisher's SNDHWM plus the subscriber's RCVHWM;
+                # `sub_rcvhwm` = the library default of the latter (0: the strict single bound the specification's PubHWM means)
+                hwm += l.dst.opts.get(RCVHWM, w.sub_rcvhwm)
                 if len(l.queue) + len(l.dst.inbox) >= hwm:
                     w.emit('pubdrop', self.owner, l.dst.owner, parts)
                     continue
